@@ -133,6 +133,10 @@ let handle ws = match ws with
     let v = (match cbch_decrypt sm3_hmac_init sm3_hmac_update sm3_hmac_finish (sm4d k16) k32 iv aad (chunk pat 0 st) with
              | Ok _ -> "1" | _ -> "0") in
     hx ct ^ " " ^ hx mac ^ " " ^ v
+  | ["blk"; alg; key; b] ->
+    (* generator helper: one block encryption by the model (to craft IVs) *)
+    let key = bytes_of_hex key and b = bytes_of_hex b in
+    if alg = "sm4" then hx (sm4_encrypt_block key b) else hx (aes_encrypt_block16 key b)
   | _ -> "ERR bad-op"
 
 let () = main_loop handle
